@@ -20,13 +20,14 @@ from typing import Any
 
 from vp import core
 
+from props import c17_gen as G
 from props import c17_ir as I
 
 META = {
     "title": "Every registered pass that succeeds leaves valid, printable IR",
     "category": "translation_validation",
     "design_ref": "DESIGN.md §5 C17",
-    "lean_modules": ["XdslProofs.C17"],
+    "lean_modules": ["XdslProofs.C17", "XdslProofs.C17SSA"],
     "text": (
         "PARTIAL BY DESIGN. No pass is modelled. programs = (pass instance, input module) pairs; the quantifier "
         "'every registered pass with any accepted options x every valid input module' is EXPLORED (enumerated / "
@@ -44,7 +45,14 @@ META = {
         "always suffices, pigeonhole), checkB_iff, and verdict_eq_ok_iff : verdict s root = \"ok\" <-> Inv s /\\ Rooted s root (the "
         "driver answers 'ok' exactly when checkB holds). Per output module the structural verdict is therefore DECIDED "
         "by a proved checker run on a serialisation of the real objects; module.verify() and the print/parse round trip "
-        "(generic and custom format, fresh Context) are run on the real implementation and not modelled."
+        "(generic and custom format, fresh Context) are run on the real implementation and not modelled. "
+        "Validity of GENERATED inputs: xDSL's verifier does not check SSA dominance, so for the generated families "
+        "(directed-cfg, directed-typed, mutants) 'valid input' additionally requires that every definition dominates its "
+        "uses; the cross-block part is decided per multi-block region by the Lean model ssa_dom (XdslModel/SSADom.lean on "
+        "the C24 dominance model) with check_iff : check g obs = true <-> for every obligation (a, b): a != b, a is a block "
+        "of the region and every CFG path from the entry to b passes through a (XdslProofs/C17SSA.lean, from C24 "
+        "dom_iff_paths_all), verdict_ok_iff, oblOk_reachable / oblOk_unreachable (an unreachable user is dominated by every "
+        "block: convention of MLIR)."
     ),
     "technique": "proved structural checker (Lean) as per-output oracle + enumeration of (pass, module) pairs on real xDSL; "
                  "independent Python invariant walk cross-checked against the Lean verdict on every output",
@@ -59,12 +67,30 @@ META = {
         "naming files, executables and entry points keep their default). Valid input module = a chunk of "
         "tests/**/*.mlir (split on '// -----') or a generated module that parses with every dialect registered and "
         "allow_unregistered (as xdsl-opt), verifies, is structurally consistent and whose two printed forms parse "
-        "back BEFORE any pass runs (otherwise a failure could not be attributed to the pass). Any exception raised "
+        "back BEFORE any pass runs (otherwise a failure could not be attributed to the pass). Generated families aimed at "
+        "the GUARDS of rewrite rules (harness/props/c17_gen.py; a rule is only correct because of what it tests before "
+        "rewriting: types, which operands are which constants, who else uses a value, identity of operands/successors; the "
+        "corpus shows each rule the shape it fires on, a weakened guard shows on an input that differs from it in one such "
+        "dimension): directed-cfg = random cf graphs with block arguments (lone-branch blocks whose arguments are forwarded, "
+        "dropped or used in dominated blocks, constant/repeated conditions, identical successors, switch cases repeating the "
+        "default, self loops, back edges, unreachable blocks; a third of the graphs with unregistered operations, also as "
+        "terminators with successors); directed-typed = arith (+ nested scf.if/scf.for) with every "
+        "shape instantiated over i1..i64, index, f32, f64, operands from {earlier value, boundary constant, the other "
+        "operand}, every value observed by a typed user, and earlier expressions repeated wherever their operands are "
+        "visible (later in the block, nested below, in a sibling region); mutant = 1-4 IR-level edits of a corpus module that names the pass "
+        "(one more use of a value at a point it dominates, another integer constant, an operand replaced by another visible "
+        "value of its type, two operands swapped, an operation duplicated in place or copied to another point where its "
+        "operands are visible; the observer of an added use is a test.op and is only placed in function / scf / affine / "
+        "test regions or in blocks where the corpus itself has a test or unregistered operation, never in the body of a "
+        "domain-specific operation). Members of these families must also be "
+        "SSA-dominance-valid (Lean ssa_dom, see text). Any exception raised "
         "by the pass (incl. SystemExit, RecursionError) = reported failure, counted per class; CPU-time-outs "
         "(ITIMER_VIRTUAL) are counted, not judged. 'Parses back' means the parser accepts the printed text; the "
         "re-parsed module is not compared (that is C04/C05). One failure is reported per pair: a structural "
         "clause (erased-value-in-use, dangling-successor before the list clauses when several fail), else verify, else print/parse; "
-        "signature = clause word + [kind of the operation at which it is detected]. Snapshot = every object reachable from the module through any "
+        "signature = clause word + [kind of the operation at which it is detected]; a known finding may carry the signature "
+        "'<clause word> [*]' when one root cause surfaces at whatever operation consumes the damaged value (it then stands "
+        "for every failure of that pass and clause). Snapshot = every object reachable from the module through any "
         "pointer field except value->owner (owners are only named), so leaked detached users of attached values are "
         "checked for consistency but not required to be attached. Trusted: Lean kernel; the serialiser "
         "c17_ir.snapshot_lines (cross-checked by the Python walk on the live objects); Python object identity; the "
@@ -75,20 +101,29 @@ META = {
         "case = (pass name, option dict, module text). Quick: a seeded sample of 600 corpus chunks + 40 generated modules is "
         "validated; for every registered pass a seeded sample of the valid ones (half from files whose RUN lines or path "
         "name the pass, half uniform), "
-        "default options plus generated option assignments / schedule_space instances, ~2000 pairs. Thorough: the "
+        "default options plus generated option assignments / schedule_space instances, ~2000 pairs; plus, per pass, 3-12 "
+        "mutants of the corpus modules that name it (~250 pairs); plus 150 directed-cfg and 150 directed-typed modules, all "
+        "of them for the passes they are written for (the dialect-independent optimisations: cfg -> canonicalize, dce; typed "
+        "-> canonicalize, cse), one "
+        "probe module per family for every other pass and 6 more for each (pass, family) whose probe changed the module in "
+        "another way than dce does (every pattern walker deletes trivially dead operations) "
+        "(~1300 pairs). All pairs are shuffled, so a budget cut on a loaded machine removes a random part. Thorough: the "
         "full cross product default-instance x every valid corpus module + generated modules, plus option "
-        "assignments and schedule_space instances on a sample, as far as the budget allows (pairs not reached are "
-        "counted). Non-trivial = the pass succeeded and changed the module (generic print differs); distinct = "
+        "assignments and schedule_space instances on a sample, 12-36 mutants per pass, 1200 modules per directed family "
+        "(all for the passes they are written for, 3 probes + 100 per responsive (pass, family)), as far as the budget "
+        "allows (pairs not reached are counted). Non-trivial = the pass succeeded and changed the module (generic print differs); distinct = "
         "distinct (pass, options, module)."
     ),
     "trusted_base": [
         "snapshot serialiser harness/props/c17_ir.py (cross-checked against an independent walk over the live objects)",
         "hand-written Lean store XdslModel/IRStore.lean (the snapshot IS a store; no mutator is used) and checker XdslModel/IRWF.lean",
+        "c17_ir.ssa_obligations (reduction of SSA dominance of a generated module to per-region obligation lists; the within-block order is checked there in Python)",
     ],
-    "budget": {"quick": 80, "thorough": 1150},
+    "budget": {"quick": 110, "thorough": 1150},
 }
 
 TLIMIT = 5.0
+TLIMIT_SMALL = 2.5   # the directed families are modules of a few dozen operations
 SIG_WORD = {
     "op-list": "parent-link", "block-list": "parent-link", "region-list": "parent-link", "root": "parent-link",
     "use-list": "use-list", "block-use-list": "use-list", "result-index": "index-field", "arg-index": "index-field",
@@ -145,9 +180,140 @@ def generated_modules(rng: random.Random, n: int) -> list[tuple[str, int, str]]:
     return out
 
 
-def _validate(i: int) -> tuple[int, str, int, str]:
+# the generated families aimed at rule guards, and the passes they are "written for" (the counterpart of a corpus
+# file naming a pass in its RUN line): the dialect-independent optimisations, which have to be right on any
+# operation, registered or not — canonicalize (the canonicalization rules of every operation + region
+# simplification), dce (liveness + block reachability), cse (scoped value numbering)
+DIRECTED = {"cfg": G.CfgGen, "typed": G.TypedGen}
+DIRECTED_FOR = {"cfg": ["canonicalize", "dce"], "typed": ["canonicalize", "cse"]}
+
+
+# minimal failing inputs of repaired defects (known_findings.json, status "fixed"): always paired with their pass, so
+# that the defect is re-found if it returns.  Detection of the classes above never depends on this list.
+REGRESSION: list[tuple[str, str]] = [
+    ("scf-for-loop-flatten", """builtin.module {
+  func.func @f(%init: f32) -> f32 {
+    %c0 = arith.constant 0 : index
+    %c1 = arith.constant 1 : index
+    %c8 = arith.constant 8 : index
+    %c64 = arith.constant 64 : index
+    %r = scf.for %i = %c0 to %c64 step %c8 iter_args(%a = %init) -> (f32) {
+      %d = scf.for %j = %c0 to %c8 step %c1 iter_args(%b = %a) -> (f32) {
+        "test.op"(%a) : (f32) -> ()
+        scf.yield %b : f32
+      }
+      scf.yield %d : f32
+    }
+    func.return %r : f32
+  }
+}
+"""),
+]
+
+
+def directed_modules(rng: random.Random, n: int) -> list[tuple[str, int, str]]:
+    out = []
+    for fam, cls in DIRECTED.items():
+        g = cls(rng)
+        for k in range(n):
+            out.append((f"<generated:{fam}>", k, g.program()))
+    return out
+
+
+def family(m: dict[str, Any]) -> str:
+    if "mutant" in m:
+        return "mutant"
+    f = m["file"]
+    if f.startswith("<regression"):
+        return "regression"
+    return "corpus" if not f.startswith("<generated") else ("generated" if f == "<generated>" else f[1:-1].replace("generated:", "directed-"))
+
+
+def _mutate_validate(job: tuple[int, int, int]) -> tuple[Any, ...]:
+    mi, seed, nmut = job
+    text, edits = G.mutate(_MODS[mi]["text"], seed, nmut, I.parse_module)
+    if text is None:
+        return mi, "no-edit-applies", 0, "", None, edits, None
+    st, n, gen = I.input_ok(text)
+    return mi, st, n, gen, text, edits, (_ssa(text) if st == "ok" else None)
+
+
+def add_mutants(ctx: core.Ctx, mods: list[dict[str, Any]], aff: dict[str, list[int]], workers: int, base: int,
+                extra_cap: int) -> dict[str, list[int]]:
+    """near misses of the modules written for a pass (c17_gen.mutate); returns pass -> indices of its mutants in mods"""
+    global _MODS
+    rng = ctx.rng
+    jobs: list[tuple[int, int, int]] = []
+    owner: list[str] = []
+    for n in sorted(aff):
+        src = [i for i in aff[n] if mods[i]["ops"] <= 250 and family(mods[i]) == "corpus"]
+        if not src:
+            continue
+        files = len({mods[i]["file"] for i in src})
+        for _ in range(base + min(extra_cap, files // 3)):
+            jobs.append((rng.choice(src), rng.randrange(1 << 30), rng.randint(1, 4)))
+            owner.append(n)
+    _MODS = mods
+    with mp.get_context("fork").Pool(workers, initializer=_init_worker) as pool:
+        res = pool.map(_mutate_validate, jobs, chunksize=8)
+    out: dict[str, list[int]] = defaultdict(list)
+    # a mutant must be SSA-valid; so must the module it was made from (the edits only add dominated uses, so a
+    # failure here means the corpus module itself was not, or the edit logic is wrong: excluded and counted)
+    ssa = ssa_verdicts(ctx, [r[6] for r in res])
+    for (mi, st, nops, gen, text, edits, _), sv, job, n in zip(res, ssa, jobs, owner):
+        if st == "ok" and sv != "ok":
+            st = "not-ssa-valid"
+        ctx.count(f"mutant.input.{st}")
+        if st != "ok":
+            continue
+        for e in edits:
+            ctx.count(f"mutant.edit.{e}")
+        mods.append({"file": mods[mi]["file"], "chunk": mods[mi]["chunk"], "text": text, "ops": nops, "generic": gen,
+                     "mutant": {"seed": job[1], "edits": edits}})
+        out[n].append(len(mods) - 1)
+    _MODS = mods
+    return out
+
+
+def _ssa(text: str) -> tuple[list[str], list[str]]:
+    try:
+        with I.quiet(), I.cpu_guard(10.0):
+            return I.ssa_obligations(I.parse_module(text))
+    except BaseException as e:  # noqa: BLE001
+        return [], [f"walk raised {type(e).__name__}"]
+
+
+def _validate(i: int) -> tuple[int, str, int, str, Any]:
     st, n, gen = I.input_ok(_CHUNKS[i][2])
-    return i, st, n, gen
+    # generated modules: SSA dominance is part of validity and is not checked by module.verify()
+    ssa = _ssa(_CHUNKS[i][2]) if st == "ok" and _CHUNKS[i][0].startswith(("<generated:", "<regression:")) else None
+    return i, st, n, gen, ssa
+
+
+def ssa_verdicts(ctx: core.Ctx, items: list[tuple[list[str], list[str]] | None]) -> list[str | None]:
+    """None (not asked), 'ok', or why the module is not SSA-valid; the cross-block part is decided by the Lean
+    model `ssa_dom` (XdslProofs/C17SSA.lean `check_iff`: every path from the entry to the user passes through
+    the defining block)"""
+    lines: list[str] = []
+    span: list[tuple[int, int] | None] = []
+    for it in items:
+        if it is None:
+            span.append(None)
+        else:
+            span.append((len(lines), len(lines) + len(it[0])))
+            lines.extend(it[0])
+    res = ctx.model("ssa_dom", lines) if lines else []
+    out: list[str | None] = []
+    for it, sp in zip(items, span):
+        if it is None or sp is None:
+            out.append(None)
+            continue
+        ctx.count("ssa_dom.regions_decided_by_lean", sp[1] - sp[0])
+        bad = [r for r in res[sp[0]:sp[1]] if r != "ok"]
+        if any(not r.startswith("fail") for r in bad):
+            raise core.InfraError(f"ssa_dom driver: {bad[:3]}")
+        out.append("ok" if not bad and not it[1] else (it[1] + bad)[0])
+    return out
 
 
 def _init_worker() -> None:
@@ -166,7 +332,17 @@ def _work(batch: list[tuple[int, str, dict[str, Any], int]]) -> list[dict[str, A
     spans: list[tuple[int, int]] = []
     for (k, name, spec, mi) in batch:
         mod = _MODS[mi]
-        r = I.run_pair(name, _PASSES[name], spec, mod["text"], TLIMIT, mod["generic"])
+        tl = TLIMIT_SMALL if mod["file"].startswith("<generated:") else TLIMIT
+        r = I.run_pair(name, _PASSES[name], spec, mod["text"], tl, mod["generic"], keep_text="probe" in spec)
+        if "probe" in spec:
+            # is the pass responsive to this family?  Every pattern walker deletes trivially dead operations, so
+            # "changed the module" must mean: in another way than plain dead-code elimination does
+            after = r.pop("after", None)
+            if r.get("changed") and after is not None and "dce" in _PASSES and name != "dce":
+                r2 = I.run_pair("dce", _PASSES["dce"], {"options": {}}, mod["text"], tl, mod["generic"], keep_text=True)
+                r["beyond_dce"] = r2.get("after") != after
+            else:
+                r["beyond_dce"] = bool(r.get("changed"))
         r["k"] = k
         lines = r.pop("lines", None)
         if lines is not None:
@@ -191,20 +367,22 @@ def run_tasks(ctx: core.Ctx, tasks: list[tuple[int, str, dict[str, Any], int]], 
     """returns (results in task order for the batches that were run, number of tasks not reached)"""
     batches = [tasks[i:i + batch] for i in range(0, len(tasks), batch)]
     results: list[dict[str, Any]] = []
-    done = 0
     with mp.get_context("fork").Pool(workers, initializer=_init_worker) as pool:
-        it = pool.imap(_work, batches)
-        for b in batches:
-            if time.time() > deadline:
+        # unordered: one slow batch (a pass that runs into the CPU guard several times) must not keep the
+        # finished ones from being collected before the deadline; every result names its task (`k`)
+        it = pool.imap_unordered(_work, batches)
+        for _ in batches:
+            left = deadline - time.time()
+            if left <= 0:
                 pool.terminate()
                 break
             try:
-                results.extend(it.next(timeout=max(5.0, deadline - time.time() + 60)))
+                results.extend(it.next(timeout=max(1.0, left)))
             except mp.TimeoutError:
                 pool.terminate()
                 break
-            done += len(b)
-    return results, len(tasks) - done
+    results.sort(key=lambda r: r["k"])
+    return results, len(tasks) - len(results)
 
 
 # ---------------------------------------------------------------------------------------------
@@ -214,7 +392,7 @@ def run_tasks(ctx: core.Ctx, tasks: list[tuple[int, str, dict[str, Any], int]], 
 def affinity(mods: list[dict[str, Any]], names: list[str]) -> dict[str, list[int]]:
     by_file: dict[str, set[str]] = {}
     for m in mods:
-        if m["file"] in by_file or m["file"] == "<generated>":
+        if m["file"] in by_file or m["file"].startswith("<"):
             continue
         try:
             head = (core.REPO / m["file"]).read_text()
@@ -331,11 +509,13 @@ def shrink_module(name: str, options: dict[str, Any], text: str, want: tuple[str
 # the run
 # ---------------------------------------------------------------------------------------------
 
-def build_modules(ctx: core.Ctx, workers: int, n_generated: int, sample: int | None = None) -> list[dict[str, Any]]:
+def build_modules(ctx: core.Ctx, workers: int, n_generated: int, sample: int | None = None, n_directed: int = 0) -> list[dict[str, Any]]:
     global _CHUNKS, _MODS
     chunks = corpus_chunks()
     ctx.count("corpus.chunks", len(chunks))
     gen = generated_modules(ctx.rng, n_generated)  # first use of the rng: the same modules in both tiers
+    gen += directed_modules(ctx.rng, n_directed)
+    gen += [(f"<regression:{n}>", i, t) for i, (n, t) in enumerate(REGRESSION)]
     if sample is not None and sample < len(chunks):
         # quick tier: a seeded sample of the chunks is validated (validation costs as much as a few passes)
         keep = sorted(ctx.rng.sample(range(len(chunks)), sample))
@@ -346,8 +526,11 @@ def build_modules(ctx: core.Ctx, workers: int, n_generated: int, sample: int | N
     with mp.get_context("fork").Pool(workers, initializer=_init_worker) as pool:
         res = pool.map(_validate, range(len(_CHUNKS)), chunksize=16)
     mods = []
-    for i, st, n, g in res:
-        fam = "generated" if _CHUNKS[i][0] == "<generated>" else "corpus"
+    ssa = ssa_verdicts(ctx, [r[4] for r in res])
+    for (i, st, n, g, _), sv in zip(res, ssa):
+        fam = family({"file": _CHUNKS[i][0]})
+        if st == "ok" and sv not in (None, "ok"):
+            st = "not-ssa-valid"   # would be a defect of the generator, never of xDSL: excluded and counted
         ctx.count(f"{fam}.input.{st}")
         if st == "ok":
             mods.append({"file": _CHUNKS[i][0], "chunk": _CHUNKS[i][1], "text": _CHUNKS[i][2], "ops": n, "generic": g})
@@ -369,13 +552,23 @@ def run(ctx: core.Ctx) -> None:
     names = list(_PASSES)
     ctx.count("passes.registered", len(names))
     t = time.time()
-    mods = build_modules(ctx, workers, 40 if quick else 320, 600 if quick else None)
+    mods = build_modules(ctx, workers, 40 if quick else 320, 600 if quick else None, 150 if quick else 1200)
     timing["validate_inputs"] = round(time.time() - t, 1)
     if not mods:
         raise core.InfraError("no valid input module")
-    nmod = len(mods)
     aff = affinity(mods, names)
-    small = [i for i, m in enumerate(mods) if m["ops"] <= 60]
+    by_fam: dict[str, list[int]] = defaultdict(list)
+    for i, m in enumerate(mods):
+        by_fam[family(m)].append(i)
+    # the uniform part of the sample and the cross product range over the corpus and the general generated programs
+    base = by_fam["corpus"] + by_fam["generated"]
+    if not base:
+        raise core.InfraError("no valid corpus module")
+    t = time.time()
+    mutants = add_mutants(ctx, mods, aff, workers, 3 if quick else 12, 9 if quick else 24)
+    timing["mutants"] = round(time.time() - t, 1)
+    nmod = len(mods)
+    small = [i for i in base if mods[i]["ops"] <= 60] or base
 
     # pass instances: default, generated option assignments
     specs: dict[str, list[dict[str, Any]]] = {}
@@ -411,23 +604,49 @@ def run(ctx: core.Ctx) -> None:
                 if pool_aff and j % 2 == 0:
                     mi = rng.choice(pool_aff)
                 else:
-                    mi = rng.randrange(nmod)
+                    mi = rng.choice(base)
                 spec = specs[n][0] if (j < 11 or len(specs[n]) == 1) else rng.choice(specs[n][1:])
                 add(n, spec, mi)
     else:
         for n in names:
             if not specs[n]:
                 continue
-            for mi in range(nmod):
+            for mi in base:
                 add(n, specs[n][0], mi)
         for n in names:
             for spec in specs[n][1:]:
-                pool = list(dict.fromkeys(aff.get(n, []) + [rng.randrange(nmod) for _ in range(110)]))
+                pool = list(dict.fromkeys(aff.get(n, []) + [rng.choice(base) for _ in range(110)]))
                 for mi in pool[:150]:
                     add(n, spec, mi)
-        # shuffle so that a budget cut removes a random part, deterministically per seed
-        rng.shuffle(tasks)
-        tasks = [(k, n, s, mi) for k, (_, n, s, mi) in enumerate(tasks)]
+    # near misses of the modules written for the pass
+    for n in names:
+        for mi in mutants.get(n, []):
+            if specs[n]:
+                add(n, specs[n][0] if (len(specs[n]) == 1 or rng.random() < 0.75) else rng.choice(specs[n][1:]), mi)
+    for mi in by_fam.get("regression", []):
+        n = mods[mi]["file"][len("<regression:"):-1]
+        if specs.get(n):
+            add(n, specs[n][0], mi)
+    # directed families: all of a family for the passes it is written for, a probe (is the pass responsive to the
+    # family?) for every other pass; responsive (pass, family) pairs get a second helping below
+    n_probe = 1 if quick else 3
+    for fam, targets in DIRECTED_FOR.items():
+        pool_f = by_fam.get("directed-" + fam, [])
+        if not pool_f:
+            continue
+        for n in names:
+            if not specs[n]:
+                continue
+            if n in targets:
+                for mi in pool_f:
+                    add(n, specs[n][0], mi)
+            else:
+                for mi in rng.sample(pool_f, min(n_probe, len(pool_f))):
+                    add(n, {**specs[n][0], "probe": fam}, mi)
+    # shuffle so that a budget cut (thorough tier; quick tier on a loaded machine) removes a random part,
+    # deterministically per seed
+    rng.shuffle(tasks)
+    tasks = [(k, n, s, mi) for k, (_, n, s, mi) in enumerate(tasks)]
     # schedule_space instances (computed here: they depend on the module)
     for n in sched_passes:
         cand = list(dict.fromkeys(aff.get(n, []) + [rng.choice(small) for _ in range(6 if quick else 60)]))
@@ -447,12 +666,35 @@ def run(ctx: core.Ctx) -> None:
 
     # under heavy machine load the fixed costs (Lean audit, input validation) can eat the budget: the pairs
     # still get a minimum slice, so that the evidence is never vacuous
-    deadline = max(ctx.t0 + ctx.budget_s - (12 if quick else 60), time.time() + (40 if quick else 300))
+    deadline = max(ctx.t_budget0 + ctx.budget_s - (12 if quick else 60), time.time() + (40 if quick else 300))
     t = time.time()
-    results, not_reached = run_tasks(ctx, tasks, workers, deadline)
+    # the second helping (planned from the probes of this phase) keeps a share of the budget
+    results, not_reached = run_tasks(ctx, tasks, workers, deadline - (6 if quick else 150))
     timing["run_pairs"] = round(time.time() - t, 1)
-    ctx.count("pairs.not_reached_budget", not_reached)
     by_k = {t[0]: t for t in tasks}
+    # second helping: a pass that changed a probe module of a directed family gets more of that family
+    responsive = sorted({(by_k[r["k"]][1], by_k[r["k"]][2]["probe"]) for r in results
+                         if "probe" in by_k[r["k"]][2] and r["outcome"] in ("ok", "fail") and (r.get("beyond_dce") or r["outcome"] == "fail")})
+    ctx.count("directed.responsive_pass_family_pairs", len(responsive))
+    tasks2: list[tuple[int, str, dict[str, Any], int]] = []
+    per = 6 if quick else 100
+    for n, fam in responsive:
+        pool_f = by_fam.get("directed-" + fam, [])
+        sp = specs[n]
+        for mi in rng.sample(pool_f, min(per, len(pool_f))):
+            spec = sp[0] if (len(sp) == 1 or rng.random() < 0.7) else rng.choice(sp[1:])
+            tasks2.append((len(tasks) + len(tasks2), n, {**spec, "second_helping": fam}, mi))
+    if tasks2 and time.time() < deadline:
+        t = time.time()
+        res2, nr2 = run_tasks(ctx, tasks2, workers, deadline, batch=8 if quick else 24)
+        timing["run_pairs_second_helping"] = round(time.time() - t, 1)
+        results.extend(res2)
+        not_reached += nr2
+        by_k.update({t[0]: t for t in tasks2})
+    elif tasks2:
+        not_reached += len(tasks2)
+    ctx.count("pairs.planned_second_helping", len(tasks2))
+    ctx.count("pairs.not_reached_budget", not_reached)
 
     failures: dict[tuple[str, str], list[tuple[int, dict[str, Any]]]] = defaultdict(list)
     for r in results:
@@ -472,9 +714,10 @@ def run(ctx: core.Ctx) -> None:
             ctx.count("pairs.generated_options")
         else:
             ctx.count("pairs.default_options")
-        ctx.count("family." + ("generated" if mods[mi]["file"] == "<generated>" else "corpus"))
+        ctx.count("family." + family(mods[mi]))
         if r.get("changed"):
-            ctx.nt((n, json.dumps(spec["options"], sort_keys=True), mods[mi]["file"], mods[mi]["chunk"]))
+            ctx.nt((n, json.dumps(spec["options"], sort_keys=True), mods[mi]["file"], mods[mi]["chunk"],
+                    mods[mi].get("mutant", {}).get("seed")))
             ctx.count("succeeded.changed_module")
         # Lean verdict vs Python walk
         lean = r.get("lean")
@@ -497,6 +740,9 @@ def run(ctx: core.Ctx) -> None:
             ctx.count("fail." + SIG_WORD.get(r["clause"], r["clause"]))
     ctx.sample({"pairs_run": len(results), "valid_modules": nmod, "passes": len(names)})
 
+    if os.environ.get("C17_TIMING"):
+        import sys
+        print("C17 timing:", timing, file=sys.stderr)
     dump = os.environ.get("C17_DUMP")
     if dump:
         rows = []
@@ -512,6 +758,15 @@ def run(ctx: core.Ctx) -> None:
 
     known = {(k["call_site"], k["signature"]) for k in core.load_known_findings()
              if k.get("property") == "C17" and k.get("status") == "known"}
+    # A known entry whose signature is "<clause word> [*]" stands for one root cause that shows at whatever operation
+    # happens to consume the damaged value (e.g. a pass that widens f32 results without converting their users: the
+    # verifier then fails at func.call, arith.select, arith.divf, ... depending on the input).  Failures of that pass
+    # and clause are reported under the wildcard signature, once.
+    merged: dict[tuple[str, str], list[tuple[int, dict[str, Any]]]] = defaultdict(list)
+    for (cs, sig), items in failures.items():
+        wild = sig.split(" [", 1)[0] + " [*]"
+        merged[(cs, wild) if (cs, sig) not in known and (cs, wild) in known else (cs, sig)].extend(items)
+    failures = merged
     ctx.count("failing.distinct_call_site_signature", len(failures))
     for (cs, sig), items in sorted(failures.items()):
         # smallest module first
@@ -522,8 +777,12 @@ def run(ctx: core.Ctx) -> None:
         if (cs, sig) not in known and ctx.time_left() > 5 and not os.environ.get("C17_NO_SHRINK"):
             text = shrink_module(n, spec["options"], text, (r["clause"], r["opkind"]), min(25.0, max(3.0, ctx.time_left() - 5)))
         case = {"pass": n, "options": spec["options"], "file": mods[mi]["file"], "chunk": mods[mi]["chunk"], "module": text}
+        origin = f"{mods[mi]['file']}#{mods[mi]['chunk']}"
+        if "mutant" in mods[mi]:
+            case["mutant"] = mods[mi]["mutant"]
+            origin = f"a near miss ({'+'.join(mods[mi]['mutant']['edits'])}) of {origin}"
         ctx.fail(cs, sig, case,
-                 f"pass {n} {json.dumps(spec['options'])} succeeded on {mods[mi]['file']}#{mods[mi]['chunk']} but left a module "
+                 f"pass {n} {json.dumps(spec['options'])} succeeded on {origin} but left a module "
                  f"that fails '{r['clause']}' at {r['opkind']}: {r['detail']}"[:900],
                  {"clause": r["clause"], "opkind": r["opkind"], "detail": r["detail"], "pairs_with_this_signature": len(items)},
                  "module verifies, walk and Lean ir_wf say ok, both printed forms parse back")
